@@ -652,6 +652,10 @@ pub fn stress_templates() -> Vec<(String, String)> {
         v.push((format!("call_depth_{}", n), format!("function r(n) -> if n == 0 then 0 else 1 + r(n - 1);\nprint(\"~\\n\", r({}))\n", n)));
         v.push((format!("method_call_depth_{}", n), format!("let o = object begin function r(n) -> if n == 0 then 0 else 1 + this.r(n - 1); end;\nprint(\"~\\n\", o.r({}))\n", n)));
     }
+    // ordinary programs at scale: thresholds of the format and of the implementation's buffers
+    for (name, src) in work::scale_templates() {
+        v.push((format!("scale_{}", name), src));
+    }
     // source nesting depth up to 200
     for n in [50usize, 100, 200] {
         v.push((format!("nested_parentheses_{}", n), format!("print(\"~\\n\", {}1{})\n", "(".repeat(n), ")".repeat(n))));
